@@ -140,7 +140,16 @@ def _is_clobbered(case, fail: Fail) -> bool:
     their old path: when set_member re-targets the stale back-references of a replaced object, or when they are
     resolved lazily through an alias that still points at them."""
     d = fail.detail or {}
-    return bool(fail.clause == "alias-registered" and d.get("occupant_detached"))
+    if not (fail.clause == "alias-registered" and d.get("occupant_detached")):
+        return False
+    # Not this finding: the failing step (re-)inserted the very alias that is not registered, without replacing an
+    # object (nothing is re-targeted then).  Attaching an alias registers it under its path, over whatever is there.
+    op = d.get("op") or ""
+    reinserted_self = d.get("moved_root") is not None and d.get("moved_root") == d.get("alias")
+    replaced = op.split(">", 1)[1].split("+")[0] if ">" in op else None
+    if reinserted_self and (op.startswith("setitem:") or replaced in (None, "alias")):
+        return False
+    return True
 
 
 def _is_merge_before_attach(case, fail: Fail) -> bool:
